@@ -57,11 +57,22 @@ Record sstate := {
   qcount : nat
 }.
 
+(** Ghost notes: not observable on the wire; they mark, inside the event
+    stream, the points at which the property texts speak about the session. *)
+Inductive note :=
+| NBoundary                                  (* sender and recipients are discarded (freedata) *)
+| NHelo                                      (* HELO / EHLO accepted *)
+| NMail (sender : bytes)                     (* MAIL FROM accepted *)
+| NRcpt (addr : bytes) (cls : rclass)        (* RCPT TO accepted *)
+| NWithdraw                                  (* second recipient of a bounce: all recipients accepted so far are withdrawn *)
+| NData (k : nat).                           (* DATA accepted: 354 sent, k-th qmail-queue invocation runs *)
+
 Inductive event :=
 | Reply (code : N)
 | Handoff (envelope message : bytes)
 | Closed
-| EStuck.
+| EStuck
+| Note (n : note).
 
 Definition set_rd (s : sstate) (r : rstate) : sstate :=
   {| rd := r; comstate := comstate s; esmtp := esmtp s; helostr := helostr s; mailfrom := mailfrom s; rcpts := rcpts s;
@@ -239,6 +250,26 @@ Definition envelope (from : bytes) (rc : list (bytes * bool)) : bytes :=
   ++ [0%N].
 
 (** ---------- handlers ---------- *)
+Definition set_relayclient (s : sstate) (rc : N) : sstate :=
+  {| rd := rd s; comstate := comstate s; esmtp := esmtp s; helostr := helostr s; mailfrom := mailfrom s;
+     rcpts := rcpts s; rcptcount := rcptcount s; goodrcpt := goodrcpt s; badcmds := badcmds s;
+     relayclient := rc; thisbytes := thisbytes s; qcount := qcount s |}.
+
+(** is_authenticated() for an address outside rcpthosts: the relay list is looked up once and the
+    outcome is cached in relayclient (1 allowed, 2 not); it is set to 2 BEFORE the result is
+    inspected, so an unreadable or malformed list never allows relaying.
+    Result: (may relay, new state, reply already written on a lookup error). *)
+Definition relay_decide (o : oracles) (s : sstate) (cls : rclass) : bool * sstate * list event :=
+  match cls with
+  | RLocal => (true, s, [])
+  | RNotLocal =>
+      if N.eqb (relayclient s) 0 then
+        let rc := if Z.ltb 0 (o_relay o) then 1%N else 2%N in
+        if Z.ltb (o_relay o) 0 then (false, set_relayclient s 2%N, [Reply 421])
+        else (N.eqb rc 1, set_relayclient s rc, [])
+      else (N.eqb (relayclient s) 1, s, [])
+  end.
+
 Definition h_rcpt (o : oracles) (s : sstate) (arg : bytes) : list event * hres * sstate :=
   match o_addr o true arg with
   | AP_nobracket => ([], HEINVAL, s)
@@ -249,19 +280,7 @@ Definition h_rcpt (o : oracles) (s : sstate) (arg : bytes) : list event * hres *
   | AP_syntax => ([Reply 501], HEBOGUS, tarpit s)
   | AP_nouser => ([Reply 550], HEBOGUS, tarpit s)
   | AP_ok addr more cls =>
-      (* is_authenticated() for a non-local address *)
-      let '(allowed, s1, pre) :=
-        match cls with
-        | RLocal => (true, s, [])
-        | RNotLocal =>
-            if N.eqb (relayclient s) 0 then
-              let rc := if Z.ltb 0 (o_relay o) then 1%N else 2%N in
-              let s' := {| rd := rd s; comstate := comstate s; esmtp := esmtp s; helostr := helostr s; mailfrom := mailfrom s;
-                           rcpts := rcpts s; rcptcount := rcptcount s; goodrcpt := goodrcpt s; badcmds := badcmds s;
-                           relayclient := rc; thisbytes := thisbytes s; qcount := qcount s |} in
-              if Z.ltb (o_relay o) 0 then (false, s', [Reply 421]) else (N.eqb rc 1, s', [])
-            else (N.eqb (relayclient s) 1, s, [])
-        end in
+      let '(allowed, s1, pre) := relay_decide o s cls in
       match pre with
       | _ :: _ => (pre, HEDONE, s1)                     (* error reading the relay list: 421 written, nothing accepted *)
       | [] =>
@@ -277,12 +296,12 @@ Definition h_rcpt (o : oracles) (s : sstate) (arg : bytes) : list event * hres *
             if bounce2 then
               (* 550, the first recipient is withdrawn, goodrcpt = 0 *)
               let rc' := match rcpts s1 with (a, _) :: t => (a, false) :: t | [] => [] end ++ [(addr, false)] in
-              ([Reply 550], HEBOGUS,
+              ([Note NWithdraw; Reply 550], HEBOGUS,
                tarpit {| rd := rd s1; comstate := comstate s1; esmtp := esmtp s1; helostr := helostr s1; mailfrom := mailfrom s1;
                          rcpts := rc'; rcptcount := S (rcptcount s1); goodrcpt := 0; badcmds := badcmds s1;
                          relayclient := relayclient s1; thisbytes := thisbytes s1; qcount := qcount s1 |})
             else
-              ([Reply 250], H0,
+              ([Note (NRcpt addr cls); Reply 250], H0,
                {| rd := rd s1; comstate := comstate s1; esmtp := esmtp s1; helostr := helostr s1; mailfrom := mailfrom s1;
                   rcpts := rcpts s1 ++ [(addr, true)]; rcptcount := S (rcptcount s1); goodrcpt := S (goodrcpt s1);
                   badcmds := badcmds s1; relayclient := relayclient s1; thisbytes := thisbytes s1; qcount := qcount s1 |})
@@ -312,7 +331,7 @@ Definition h_from (o : oracles) (s : sstate) (arg : bytes) (linelen : nat) : lis
               if Nat.ltb (CMD_LINE_MAX + bonus) linelen then ([], HE2BIG, s)
               else if negb (N.eqb (o_databytes o) 0) && N.ltb (o_databytes o) tb then ([Reply 452], HEDONE, s)
               else
-                ([Reply 250], H0,
+                ([Note (NMail addr); Reply 250], H0,
                  {| rd := rd s; comstate := comstate s; esmtp := esmtp s; helostr := helostr s; mailfrom := addr; rcpts := rcpts s;
                     rcptcount := rcptcount s; goodrcpt := 0; badcmds := badcmds s; relayclient := relayclient s;
                     thisbytes := tb; qcount := qcount s |})
@@ -336,31 +355,31 @@ Definition h_data (fuel : nat) (o : oracles) (s : sstate) : list event * hres * 
         let '(de, r') := data_loop fuel o (rd s) trace in
         let s' := set_rd s r' in
         match de with
-        | D_dead => ([Reply 354], HEXIT, s')
-        | D_stuck => ([Reply 354; EStuck], HEXIT, s')
+        | D_dead => ([Note (NData k); Reply 354], HEXIT, s')
+        | D_stuck => ([Note (NData k); Reply 354; EStuck], HEXIT, s')
         | D_eod msg _ =>
             (* queue_envelope (freedata) + queue_result *)
             let env := envelope (mailfrom s') (rcpts s') in
             let sf := freedata s' in
             match o_qq o k with
-            | QQ_ok => ([Reply 354; Handoff env msg; Reply 250], H0, sf)
+            | QQ_ok => ([Note (NData k); Reply 354; Handoff env msg; Note NBoundary; Reply 250], H0, sf)
             | QQ_exit c =>
-                if Nat.leb QQ_PERM_LO c && Nat.leb c QQ_PERM_HI then ([Reply 354; Reply 554], HEDONE, sf)
-                else ([Reply 354; Reply 451], HEDONE, sf)
-            | QQ_signal => ([Reply 354; Reply 451], HEDONE, sf)
-            | QQ_die_write => ([Reply 354; Reply 451], HEDONE, sf)
+                if Nat.leb QQ_PERM_LO c && Nat.leb c QQ_PERM_HI then ([Note (NData k); Reply 354; Note NBoundary; Reply 554], HEDONE, sf)
+                else ([Note (NData k); Reply 354; Note NBoundary; Reply 451], HEDONE, sf)
+            | QQ_signal => ([Note (NData k); Reply 354; Note NBoundary; Reply 451], HEDONE, sf)
+            | QQ_die_write => ([Note (NData k); Reply 354; Note NBoundary; Reply 451], HEDONE, sf)
             end
         | D_toobig l =>
             let '(alive, r2) := drain fuel r' l in
-            if alive then ([Reply 354], HEMSGSIZE, freedata (set_rd s' r2)) else ([Reply 354], HEXIT, set_rd s' r2)
+            if alive then ([Note (NData k); Reply 354; Note NBoundary], HEMSGSIZE, freedata (set_rd s' r2)) else ([Note (NData k); Reply 354], HEXIT, set_rd s' r2)
         | D_loop l =>
             let '(alive, r2) := drain fuel r' l in
-            if alive then ([Reply 354; Reply 554], HEDONE, freedata (set_rd s' r2)) else ([Reply 354], HEXIT, set_rd s' r2)
+            if alive then ([Note (NData k); Reply 354; Note NBoundary; Reply 554], HEDONE, freedata (set_rd s' r2)) else ([Note (NData k); Reply 354], HEXIT, set_rd s' r2)
         | D_readerr big l =>
             let '(alive, r2) := drain fuel r' l in
-            if negb alive then ([Reply 354], HEXIT, set_rd s' r2)
-            else if big then ([Reply 354], HE2BIG, freedata (set_rd s' r2))
-            else ([Reply 354; Reply 500], HEDONE, freedata (set_rd s' r2))
+            if negb alive then ([Note (NData k); Reply 354], HEXIT, set_rd s' r2)
+            else if big then ([Note (NData k); Reply 354; Note NBoundary], HE2BIG, freedata (set_rd s' r2))
+            else ([Note (NData k); Reply 354; Note NBoundary; Reply 500], HEDONE, freedata (set_rd s' r2))
         end
     end.
 
@@ -389,95 +408,108 @@ Definition on_error (s : sstate) (h : hres) : list event * option sstate :=
     | H0 | HEXIT => ([], Some s)
     end.
 
+(** the command handlers, selected by the handler column of commands[]; the fourth
+    component is what commands[i].state is after the handler ran *)
+Definition run_handler (f : nat) (o : oracles) (s : sstate) (l : bytes) (namelen : nat) (hid : nat) (st : Z)
+  : list event * hres * sstate * Z :=
+  let rest_ := skipn namelen l in
+  match hid with
+  | 0 => (* smtp_noop *)
+      let '(sp, s') := sync_pipelining f s in
+      match sp with
+      | Some e => (e, HEXIT, s', st)
+      | None => ([Reply 250], H0, s', st)
+      end
+  | 1 => ([Reply 221; Closed], HEXIT, s, st)
+  | 2 => (* smtp_rset *)
+      if N.leb 8 (comstate s) then ([Note NBoundary; Reply 250], H0, freedata s, Z.of_N (helo_state (esmtp s)))
+      else ([Reply 250], H0, s, st)
+  | 3 => (* smtp_helo *)
+      let s' := freedata s in
+      let s' := {| rd := rd s'; comstate := comstate s'; esmtp := false; helostr := helostr s'; mailfrom := mailfrom s';
+                   rcpts := rcpts s'; rcptcount := rcptcount s'; goodrcpt := goodrcpt s'; badcmds := badcmds s';
+                   relayclient := relayclient s'; thisbytes := thisbytes s'; qcount := qcount s' |} in
+      if o_helo o (skipn 5 l) then
+        ([Note NBoundary; Note NHelo; Reply 250], H0,
+         {| rd := rd s'; comstate := comstate s'; esmtp := false; helostr := skipn 5 l; mailfrom := mailfrom s';
+            rcpts := rcpts s'; rcptcount := rcptcount s'; goodrcpt := goodrcpt s'; badcmds := badcmds s';
+            relayclient := relayclient s'; thisbytes := thisbytes s'; qcount := qcount s' |}, st)
+      else ([Note NBoundary], HEINVAL, s', st)
+  | 4 => (* smtp_ehlo *)
+      let s' := freedata s in
+      if o_helo o (skipn 5 l) then
+        ([Note NBoundary; Note NHelo; Reply 250], H0,
+         {| rd := rd s'; comstate := comstate s'; esmtp := true; helostr := skipn 5 l; mailfrom := mailfrom s';
+            rcpts := rcpts s'; rcptcount := rcptcount s'; goodrcpt := goodrcpt s'; badcmds := badcmds s';
+            relayclient := relayclient s'; thisbytes := thisbytes s'; qcount := qcount s' |}, st)
+      else ([Note NBoundary], HEINVAL, s', st)
+  | 5 => let '(e, h, s') := h_from o s rest_ (length l) in (e, h, s', st)
+  | 6 => let '(e, h, s') := h_rcpt o s rest_ in (e, h, s', st)
+  | 7 => let '(e, h, s') := h_data f o s in
+         (e, h, s', match h with H0 => Z.of_N (helo_state (esmtp s')) | _ => st end)
+  | 8 => (* STARTTLS without a certificate (harness configuration): tls_err() writes 454 and returns -EDONE,
+            which smtploop does not know: "500 5.3.0 unknown error" follows *)
+         ([Reply 454], HUNKNOWN, s, st)
+  | 9 => ([], HSEQ, s, st)                      (* AUTH without a backend (harness configuration) *)
+  | 10 => ([Reply 252], H0, s, st)
+  | 12 => (* http_post *)
+      if N.eqb (comstate s) 1 && bytes_eqb (sub l 4 10) [32; 47; 32; 72; 84; 84; 80; 47; 49; 46]%N
+      then ([Closed], HEXIT, s, st)
+      else ([], HEINVAL, s, st)
+  | _ => ([], HEINVAL, s, st)
+  end.
+
+(** what smtploop does with the handler's result *)
+Definition after_handler (i : nat) (r : list event * hres * sstate * Z) : list event * hres * sstate :=
+  let '(evs, h, s1, newstate) := r in
+  match h with
+  | H0 =>
+      let c := if Z.ltb 0 newstate then Z.to_N newstate
+               else if Z.eqb newstate 0 then N.shiftl 1 (N.of_nat i)
+               else comstate s1 in
+      (evs, H0, set_badcmds (set_comstate s1 c) 0)
+  | _ => (evs, h, s1)
+  end.
+
+(** find the command, check state mask, length and argument shape, run the handler *)
+Definition dispatch (f : nat) (o : oracles) (s : sstate) (l : bytes) : list event * hres * sstate :=
+  if negb (line_valid l) then ([], HEINVAL, s)
+  else match find_cmd commands 0 l with
+  | None => ([], HEINVAL, s)
+  | Some (i, (name, mask, hid, st, flags)) =>
+      if N.eqb (N.land (comstate s) mask) 0 then ([], HSEQ, s)
+      else if N.eqb (N.land flags 2) 0 && Nat.ltb CMD_LINE_MAX (length l) then ([], HE2BIG, s)
+      else
+        let rest_ := skipn (length name) l in
+        if N.eqb (N.land flags 1) 0 && negb (Nat.eqb (length rest_) 0) then ([], HEINVAL, s)
+        else if negb (N.eqb (N.land flags 4) 0) && negb (N.eqb (nth 0 rest_ 0%N) SP) then ([], HEINVAL, s)
+        else after_handler i (run_handler f o s l (length name) hid st)
+  end.
+
+(** one round of the smtploop: read a line (or fail to), act on it.  [f] bounds the loops inside handlers. *)
+Definition step (f : nat) (o : oracles) (s : sstate) : list event * option sstate :=
+  let '(it, r') := net_read (rd s) in
+  let s := set_rd s r' in
+  match it with
+  | Dead => ([], None)
+  | Stuck => ([EStuck], None)
+  | Einval => on_error s HEINVAL
+  | E2big => on_error s HE2BIG
+  | Line l =>
+      let '(evs, h, s1) := dispatch f o s l in
+      match h with
+      | HEXIT => (evs, None)
+      | H0 => (evs, Some s1)
+      | _ => let '(ev, so) := on_error s1 h in (evs ++ ev, so)
+      end
+  end.
+
 Fixpoint serve (fuel : nat) (o : oracles) (s : sstate) : list event :=
   match fuel with
   | O => [EStuck]
   | S f =>
-      let '(it, r') := net_read (rd s) in
-      let s := set_rd s r' in
-      match it with
-      | Dead => []
-      | Stuck => [EStuck]
-      | Einval => let '(ev, so) := on_error s HEINVAL in
-                  ev ++ match so with Some s' => serve f o s' | None => [] end
-      | E2big => let '(ev, so) := on_error s HE2BIG in
-                 ev ++ match so with Some s' => serve f o s' | None => [] end
-      | Line l =>
-          let '(evs, h, s1) :=
-            if negb (line_valid l) then ([], HEINVAL, s)
-            else match find_cmd commands 0 l with
-            | None => ([], HEINVAL, s)
-            | Some (i, (name, mask, hid, st, flags)) =>
-                if N.eqb (N.land (comstate s) mask) 0 then ([], HSEQ, s)
-                else if N.eqb (N.land flags 2) 0 && Nat.ltb CMD_LINE_MAX (length l) then ([], HE2BIG, s)
-                else
-                  let rest_ := skipn (length name) l in
-                  if N.eqb (N.land flags 1) 0 && negb (Nat.eqb (length rest_) 0) then ([], HEINVAL, s)
-                  else if negb (N.eqb (N.land flags 4) 0) && negb (N.eqb (nth 0 rest_ 0%N) SP) then ([], HEINVAL, s)
-                  else
-                    (* run the handler; [newstate] = what commands[i].state is after it ran *)
-                    let '(evs, h, s1, newstate) :=
-                      match hid with
-                      | 0 => (* smtp_noop *)
-                          let '(sp, s') := sync_pipelining f s in
-                          match sp with
-                          | Some e => (e, HEXIT, s', st)
-                          | None => ([Reply 250], H0, s', st)
-                          end
-                      | 1 => ([Reply 221; Closed], HEXIT, s, st)
-                      | 2 => (* smtp_rset *)
-                          if N.leb 8 (comstate s) then ([Reply 250], H0, freedata s, Z.of_N (helo_state (esmtp s)))
-                          else ([Reply 250], H0, s, st)
-                      | 3 => (* smtp_helo *)
-                          let s' := freedata s in
-                          let s' := {| rd := rd s'; comstate := comstate s'; esmtp := false; helostr := helostr s'; mailfrom := mailfrom s';
-                                       rcpts := rcpts s'; rcptcount := rcptcount s'; goodrcpt := goodrcpt s'; badcmds := badcmds s';
-                                       relayclient := relayclient s'; thisbytes := thisbytes s'; qcount := qcount s' |} in
-                          if o_helo o (skipn 5 l) then
-                            ([Reply 250], H0,
-                             {| rd := rd s'; comstate := comstate s'; esmtp := false; helostr := skipn 5 l; mailfrom := mailfrom s';
-                                rcpts := rcpts s'; rcptcount := rcptcount s'; goodrcpt := goodrcpt s'; badcmds := badcmds s';
-                                relayclient := relayclient s'; thisbytes := thisbytes s'; qcount := qcount s' |}, st)
-                          else ([], HEINVAL, s', st)
-                      | 4 => (* smtp_ehlo *)
-                          let s' := freedata s in
-                          if o_helo o (skipn 5 l) then
-                            ([Reply 250], H0,
-                             {| rd := rd s'; comstate := comstate s'; esmtp := true; helostr := skipn 5 l; mailfrom := mailfrom s';
-                                rcpts := rcpts s'; rcptcount := rcptcount s'; goodrcpt := goodrcpt s'; badcmds := badcmds s';
-                                relayclient := relayclient s'; thisbytes := thisbytes s'; qcount := qcount s' |}, st)
-                          else ([], HEINVAL, s', st)
-                      | 5 => let '(e, h, s') := h_from o s rest_ (length l) in (e, h, s', st)
-                      | 6 => let '(e, h, s') := h_rcpt o s rest_ in (e, h, s', st)
-                      | 7 => let '(e, h, s') := h_data f o s in
-                             (e, h, s', match h with H0 => Z.of_N (helo_state (esmtp s')) | _ => st end)
-                      | 8 => (* STARTTLS without a certificate (harness configuration): tls_err() writes 454 and returns -EDONE,
-                                which smtploop does not know: "500 5.3.0 unknown error" follows *)
-                             ([Reply 454], HUNKNOWN, s, st)
-                      | 9 => ([], HSEQ, s, st)                      (* AUTH without a backend (harness configuration) *)
-                      | 10 => ([Reply 252], H0, s, st)
-                      | 12 => (* http_post *)
-                          if N.eqb (comstate s) 1 && bytes_eqb (sub l 4 10) [32; 47; 32; 72; 84; 84; 80; 47; 49; 46]%N
-                          then ([Closed], HEXIT, s, st)
-                          else ([], HEINVAL, s, st)
-                      | _ => ([], HEINVAL, s, st)
-                      end in
-                    match h with
-                    | H0 =>
-                        let c := if Z.ltb 0 newstate then Z.to_N newstate
-                                 else if Z.eqb newstate 0 then N.shiftl 1 (N.of_nat i)
-                                 else comstate s1 in
-                        (evs, H0, set_badcmds (set_comstate s1 c) 0)
-                    | _ => (evs, h, s1)
-                    end
-            end in
-          match h with
-          | HEXIT => evs
-          | H0 => evs ++ serve f o s1
-          | _ => let '(ev, so) := on_error s1 h in
-                 evs ++ ev ++ match so with Some s' => serve f o s' | None => [] end
-          end
-      end
+      let '(ev, so) := step f o s in
+      ev ++ match so with Some s' => serve f o s' | None => [] end
   end.
 
 Definition init_state (chunks : list bytes) : sstate :=
